@@ -243,6 +243,9 @@ func checkJsonRpcUrlChildCompatible(d *directive.Directive) *jerr.JApiError {
 	var isBaseJsonRpc bool
 
 	for _, dd := range d.Children {
+		if dd.Type() == directive.Tags {
+			continue // Tags goes with both HTTP and JSON-RPC methods.
+		}
 		if base == nil {
 			base = dd
 			isBaseJsonRpc = isJsonRpcUrlChildDirective(base)
